@@ -36,7 +36,34 @@ partial def toPExpr : Expr → Option PExpr
       | .elif x => do some (PElse.elif (← toPExpr x)))
     some (.ifE (← toPExpr c) (← toPBlock t) e')
   | .fn _ _ ps b => do some (.fnE ps (← toPBlock b))
+  | .null _ => some .null
+  | .float _ _ => some (.lit "Float" "")
+  | .str _ v => some (.lit "Str" v)
+  | .char _ c => some (.lit "Char" (String.singleton c))
+  | .byte _ b => some (.lit "Byte" (String.singleton (Char.ofNat b.toNat)))
+  | .bid _ n => (P2sh.Gen.ParseRules.keywords.find? (·.1 == n)).map (fun k => PExpr.bid k.2)
+  | .score _ => some .score
+  | .matchE _ e arms => do some (.matchE (← toPExpr e) (← arms.mapM toPArm))
+  | .arr _ es => do some (.arr (← es.mapM toPExpr))
+  | .map _ kvs => do some (.map (← kvs.mapM (fun (k, v) => do some (PKv.mk (← toPExpr k) (← toPExpr v)))))
   | _ => none
+partial def toPArm : Arm → Option PArm
+  | .mk _ pats b => do some (.mk (← pats.mapM toPPat) (← toPBlock b))
+partial def toPAtom : Expr → Option PAtom
+  | .int _ v => if v.toInt < 0 then none else some (PAtom.int v.toInt.toNat)
+  | .ident _ n _ => some (PAtom.ident n)
+  | .str _ v => some (.lit "Str" v)
+  | .char _ c => some (.lit "Char" (String.singleton c))
+  | .byte _ b => some (.lit "Byte" (String.singleton (Char.ofNat b.toNat)))
+  | _ => none
+partial def toPPat : Pat → Option PPat
+  | .pint _ v => if v.toInt < 0 then none else some (.pint v.toInt.toNat)
+  | .pbool _ b => some (.pbool b)
+  | .pdef _ => some .pdef
+  | .pstr _ v => some (.plit "Str" v)
+  | .pchar _ c => some (.plit "Char" (String.singleton c))
+  | .pbyte _ b => some (.plit "Byte" (String.singleton (Char.ofNat b.toNat)))
+  | .prange _ op a b => do some (.prange (← ttypeOfOp op) (← toPAtom a) (← toPAtom b))
 partial def toPBlock : Block → Option (List PStmt)
   | .mk _ ss => ss.mapM toPStmt
 partial def toPStmt : Stmt → Option PStmt
@@ -50,6 +77,12 @@ partial def toPStmt : Stmt → Option PStmt
   | .breakS _ l => some (.breakS l)
   | .continueS _ l => some (.continueS l)
   | .fnS _ _ n ps b => do some (.fnS n ps (← toPBlock b))
+  | .whileS _ (some l) c b => do some (.whileL l (← toPExpr c) (← toPBlock b))
+  | .loop _ (some l) b => do some (.loopL l (← toPBlock b))
+  | .filter _ .none (some b) => do some (.filterS .none (← toPBlock b))
+  | .filter _ .fend (some b) => do some (.filterS .fend (← toPBlock b))
+  | .filter _ (.expr e) (some b) => do some (.filterS (.expr (← toPExpr e)) (← toPBlock b))
+  | .filter _ (.expr e) none => do some (.filterP (← toPExpr e))
   | _ => none
 end
 
@@ -60,7 +93,7 @@ def specOf (sx : String) : String :=
     match p.stmts with
     | [.exprS _ e] =>
       match toPExpr e with
-      | some t => "eq ok " ++ t.canon
+      | some t => "eq ok " ++ t.canon false
       | none => "any"
     | _ => "any"
   | none => "any"
@@ -69,7 +102,7 @@ def modelOf (src : String) : String :=
   match Scanner.scan src with
   | .ok ts =>
     match parseTokens ts with
-    | .ok e => "ok " ++ e.canon
+    | .ok e => "ok " ++ e.canon false
     | .err => "perr"
     | .skip => "MODEL-SKIP"
     | .fuel => "MODEL-FUEL"
@@ -81,7 +114,7 @@ def specOfProg (sx : String) : String :=
   match readProgram sx with
   | some p =>
     match p.stmts.mapM toPStmt with
-    | some ss => "eq ok (prog" ++ canonStmts ss ++ ")"
+    | some ss => "eq ok (prog" ++ canonStmts false ss ++ ")"
     | none => "nopanic"
   | none => "nopanic"
 
@@ -89,14 +122,16 @@ def modelOfProg (src : String) : String :=
   match Scanner.scan src with
   | .ok ts =>
     match parseProgramTokens ts with
-    | .ok ss => "ok (prog" ++ canonStmts ss ++ ")"
+    | .ok ss => "ok (prog" ++ canonStmts false ss ++ ")"
     | .err => "perr"
     | .skip => "MODEL-SKIP"
     | .fuel => "HANG"          -- the model predicts that the real parser does not end (C01Parse.parseProgramTokens_total: never, with the table as it is)
   | .panic => "MODEL-SKIP"
   | .fuel => "MODEL-SKIP"
 
-/-- `pprog <hex of program source> @@ <AST s-expression of the real parser>` (C01) -/
+/-- `pprog <hex of program source> @@ <AST s-expression of the real parser>` (C01): both sides in the text of the harness op
+`pprog` (nodes outside its first sub-grammar — `match`, labels, filters, arrays, maps, `null`, … — print as `(other)` /
+`(sother)`, exactly as `pcanon` / `pstmt` of harness/src/ops/lang.rs print them) -/
 def runProg (line : String) : String :=
   match line.splitOn " @@ " with
   | [l, sx] =>
@@ -104,6 +139,60 @@ def runProg (line : String) : String :=
     | [_, hex] =>
       match (unhex hex).bind (fun bs => String.fromUTF8? (ByteArray.mk (bs.map UInt8.ofNat).toArray)) with
       | some src => result (modelOfProg src) (specOfProg sx.trimAscii.toString)
+      | none => "bad-op"
+    | _ => "bad-op"
+  | _ => "bad-op"
+
+/-! ## op `pfull`: every node of the model against the tree of the real parser -/
+
+/-- what came with the line: the output of the harness op `parse` (`ast errs=N errlines=[…] (prog …)`), or the bare
+`(prog …)`, or `(perr)`.  Result: the canonical text of the real parser's answer in the model's terms. -/
+def realCanon (sx : String) : String :=
+  let body : Option String :=
+    if sx.startsWith "ast errs=" then
+      match sx.splitOn " " with
+      | _ :: e :: _ :: rest => if e == "errs=0" then some (" ".intercalate rest) else some "(perr)"
+      | _ => none
+    else some sx
+  match body with
+  | none => "unreadable"
+  | some b =>
+    if b == "(perr)" then "perr" else
+    match readProgram b with
+    | some p =>
+      match p.stmts.mapM toPStmt with
+      | some ss => "ok (prog" ++ canonStmts true ss ++ ")"
+      | none => "unmodelled"             -- the real tree has a node the model has no constructor for
+    | none => "unreadable"
+
+/-- `none` = the model does not cover the text -/
+def modelCanon (src : String) : Option String :=
+  match Scanner.scan src with
+  | .ok ts =>
+    match parseProgramTokens ts with
+    | .ok ss => some ("ok (prog" ++ canonStmts true ss ++ ")")
+    | .err => some "perr"
+    | .skip => none
+    | .fuel => some "HANG"
+  | .panic => none
+  | .fuel => none
+
+/-- `pfull <hex of program source> @@ <output of the harness op parse>`: `same` when the model's tree (every node:
+`match`, labels, filters, arrays, maps, …) is the real parser's tree and both agree on "an error was reported";
+`diff <hex of the model's text> <hex of the real text>` otherwise; `MODEL-SKIP` where the model claims nothing -/
+def runFull (line : String) : String :=
+  match line.splitOn " @@ " with
+  | [l, sx] =>
+    match words l with
+    | [_, hex] =>
+      match (unhex hex).bind (fun bs => String.fromUTF8? (ByteArray.mk (bs.map UInt8.ofNat).toArray)) with
+      | some src =>
+        match modelCanon src with
+        | none => result "MODEL-SKIP" "any"
+        | some m =>
+          let r := realCanon sx.trimAscii.toString
+          if m == r then result "same" "any"
+          else result ("diff " ++ hexOfString m ++ " " ++ hexOfString r) "any"
       | none => "bad-op"
     | _ => "bad-op"
   | _ => "bad-op"
